@@ -156,10 +156,10 @@ def recompute_edge(df_features, cyc_idx, direction):
     edge = df_features.iloc[edge_range].copy()
 
     # Update dataframe with recomputed consistency features
-    df_features['amp_consistency'][cyc_idx] = \
+    df_features.loc[df_features.index[cyc_idx], 'amp_consistency'] = \
         compute_amp_consistency(edge, direction=direction)[1]
 
-    df_features['period_consistency'][cyc_idx] = \
+    df_features.loc[df_features.index[cyc_idx], 'period_consistency'] = \
         compute_period_consistency(edge, direction=direction)[1]
 
     return df_features
